@@ -251,6 +251,8 @@ package redis
 //@ spec func isZeroTime(t time.Time) bool
 //@ spec func parseF(s string) float64
 //@ spec func parseFOK(s string) bool
+// a float argument is well-formed when it parses and is a number (NaN is rejected)
+//@ spec func floatOK(s string) bool = parseFOK(s) && !isNaN(parseF(s))
 //@ spec func scoreExcl(s string) bool = s[0] == 40
 //@ spec func scoreText(s string) string = (s[0] == 40 ? s[1:] : s)
 
@@ -313,7 +315,7 @@ package redis
 //@ func nextFloatArgument
 //@ requires args != nil
 //@ assigns args.index
-//@ ensures {C05,C10} err == nil <==> (old(strArg(args, 0)) && parseFOK(old(argS(args, 0))))
+//@ ensures {C05,C10} err == nil <==> (old(strArg(args, 0)) && floatOK(old(argS(args, 0))))
 //@ ensures {C05} err == nil ==> result0 == parseF(old(argS(args, 0))) && args.index == old(args.index) + 1
 //@ ensures {C10} errors.Is(err, proto.ErrEOM) ==> !old(hasArg(args, 0))
 //@ ensures old(args.index) <= args.index && args.index <= old(args.index) + 1
@@ -321,7 +323,7 @@ package redis
 //@ func nextScoreArgument
 //@ requires args != nil
 //@ assigns args.index
-//@ ensures {C05,C10} err == nil <==> (old(strArg(args, 0)) && parseFOK(old(argS(args, 0))))
+//@ ensures {C05,C10} err == nil <==> (old(strArg(args, 0)) && floatOK(old(argS(args, 0))))
 //@ ensures {C05} err == nil ==> result0 == parseF(old(argS(args, 0))) && args.index == old(args.index) + 1
 //@ ensures {C10} errors.Is(err, proto.ErrEOM) ==> !old(hasArg(args, 0))
 //@ ensures old(args.index) <= args.index && args.index <= old(args.index) + 1
@@ -336,7 +338,7 @@ package redis
 //@ func nextRangeScoreIndexArgument
 //@ requires args != nil
 //@ assigns args.index
-//@ ensures {C05,C10} err == nil <==> (old(strArg(args, 0)) && len(old(argS(args, 0))) > 0 && parseFOK(scoreText(old(argS(args, 0)))))
+//@ ensures {C05,C10} err == nil <==> (old(strArg(args, 0)) && len(old(argS(args, 0))) > 0 && floatOK(scoreText(old(argS(args, 0)))))
 //@ ensures {C10} err == nil ==> args.index == old(args.index) + 1
 //@ ensures {C05} err == nil ==> result1 == scoreExcl(old(argS(args, 0))) && result0 == parseF(scoreText(old(argS(args, 0))))
 //@ ensures old(args.index) <= args.index && args.index <= old(args.index) + 1
@@ -649,8 +651,8 @@ package redis
 //@ executor "ZINCRBY"
 //@ ensures {C05} H_calls == old(H_calls) + 1 ==> H_m[old(H_calls)] == "ZIncBy" && H_conn[old(H_calls)] == conn && H_ZIncBy_key[old(H_calls)] == old(argS(args, 0)) && H_ZIncBy_inc[old(H_calls)] == parseF(old(argS(args, 1))) && H_ZIncBy_member[old(H_calls)] == old(argS(args, 2)) && result0 == H_res[old(H_calls)] && err == H_err[old(H_calls)]
 //@ ensures {C05,C10} H_calls == old(H_calls) || H_calls == old(H_calls) + 1
-//@ ensures {C10} !old(strArg(args, 0)) || !old(strArg(args, 1)) || !old(strArg(args, 2)) || !parseFOK(old(argS(args, 1))) ==> err != nil && H_calls == old(H_calls)
-//@ ensures {C05} old(strArg(args, 0)) && old(strArg(args, 1)) && old(strArg(args, 2)) && parseFOK(old(argS(args, 1))) ==> H_calls == old(H_calls) + 1
+//@ ensures {C10} !old(strArg(args, 0)) || !old(strArg(args, 1)) || !old(strArg(args, 2)) || !floatOK(old(argS(args, 1))) ==> err != nil && H_calls == old(H_calls)
+//@ ensures {C05} old(strArg(args, 0)) && old(strArg(args, 1)) && old(strArg(args, 2)) && floatOK(old(argS(args, 1))) ==> H_calls == old(H_calls) + 1
 
 //@ executor "EXPIREAT"
 //@ ensures {C05} H_calls == old(H_calls) + 1 ==> H_m[old(H_calls)] == "Expire" && H_conn[old(H_calls)] == conn && H_Expire_key[old(H_calls)] == old(argS(args, 0)) && result0 == H_res[old(H_calls)] && err == H_err[old(H_calls)]
